@@ -1521,3 +1521,13 @@ func sortedKeys[V any](m map[string]V) []string {
 	sort.Strings(ks)
 	return ks
 }
+
+// lemmaByName: a `lemma` declaration of any loaded contract file
+func (e *Engine) lemmaByName(name string) *Axiom {
+	for _, ax := range e.cs.Axioms {
+		if ax.Lemma && ax.Name == name {
+			return ax
+		}
+	}
+	return nil
+}
